@@ -559,7 +559,7 @@ func checkC13(ci interface{}, st *Stats) (err error) {
 		if c.FailTrans >= 0 && len(transformers) > 0 {
 			e.failTrans = transformers[c.FailTrans%len(transformers)].id
 		}
-		f := text.NewFile("f", []byte(strings.Repeat("x", 64)))
+		f := text.NewFile("f", []byte(strings.Repeat("x", total+64))) // every node position lies inside the file
 		ctx := parsley.NewContext(parsley.NewFileSet(f), text.NewReader(f))
 		ctx.EnableTransformation()
 		ctx.EnableStaticCheck()
